@@ -165,8 +165,10 @@ def run(ck):
             continue
         for x in f["exits"]:
             for (pid, inp, t, oc) in sk.apps_on_path(x, f["ps"]):
-                if pid[0] in ("satisfy", "take_while", "tag") and t[3] not in seen_sites:
-                    seen_sites.add(t[3])
+                # (an instance is a source site *with its class*: one parametrised helper evaluated in place for several
+                # radixes or quotes is several instances)
+                if pid[0] in ("satisfy", "take_while", "tag") and (t[3], pid[1]) not in seen_sites:
+                    seen_sites.add((t[3], pid[1]))
                     cls = pid[1] if pid[0] != "tag" else (frozenset([pid[1]]) if pid[1] is not None else None)
                     n += 1
                     if cls is None:
